@@ -153,7 +153,7 @@ Theorem C02_deferral_expired_sends : forall st c,
   scaled_guard c = false -> pending st c && negb (rgn_is_empty (cR c)) = true ->
   xDefer (sExt st) <> 0 -> xDefU (cExt c) <> 0 ->
   (xNowS (sExt st) <? xDefS (cExt c)) || (elapsed_ms st c >? xDefer (sExt st)) = true ->
-  tick_client st c = send_client st (set_cext c (mkCExt (xDefS (cExt c)) 0 (cScaled c))).
+  tick_client st c = send_client st (set_cext c (ext_timer (cExt c) (xDefS (cExt c)) 0)).
 Proof. exact tick_expired_sends. Qed.
 
 (* ---------------------------------------------------------------- SetPixelFormat mid-session *)
